@@ -69,6 +69,7 @@ var guardTable = []guardRow{
 	{"fixtures/fx.GoodQ", "fixtures/fx.GoodQ.mu", []string{"q"}, true, false},
 	{"fixtures/fx.BadBShallow", "fixtures/fx.BadBShallow.mu", []string{"keep"}, false, false},
 	{"fixtures/fx.c7obj", "fixtures/fx.c7obj.mu", []string{"n"}, false, false},
+	{"fixtures/fx.c6reg", "fixtures/fx.c6reg.mu", []string{"logs", "counts"}, false, false},
 	{"fixtures/fx.rmw", "fixtures/fx.rmw.mu", []string{"total"}, false, false},
 	{"fixtures/fx.rmw", "fixtures/fx.rmw.mu", []string{"stats"}, true, false},
 }
@@ -718,6 +719,7 @@ func runEngineC(p *Prog, o *obls) {
 		o.note("C1", "pruned:"+pr[:strings.Index(pr, ":")], "-", pr)
 	}
 	runC6(p, o, la, acc, byField)
+	runC6b(p, o, la, acc, byField)
 	runC2(p, o, la)
 	runC3(p, o, la)
 	runC4(p, o, la, wanted)
@@ -1667,6 +1669,78 @@ func runC6(p *Prog, o *obls, la *lockAnalysis, acc []accessSite, byField map[str
 			o.bad("C6", key, p.Pos(k.fn.Pos()), strings.Join(dedupe(bad), "; "))
 		} else {
 			o.ok("C6", key, p.Pos(k.fn.Pos()), fmt.Sprintf("%d read-modify-write dependence(s), the guard is held continuously from the read to the store", nRMW))
+		}
+	}
+}
+
+// runC6b: membership decided in an earlier critical section. A map update on a guarded map whose key was obtained from
+// another field guarded by the same lock (ranging over / looking up a registry, or a snapshot of it) must happen in the
+// critical section that read that field: once the lock was released in between, the entry the key came from may be
+// gone (the stream was unbound) and the update re-creates state for it.
+func runC6b(p *Prog, o *obls, la *lockAnalysis, acc []accessSite, byField map[string]guardRow) {
+	readsIn := map[*ssa.Function][]accessSite{}
+	for _, a := range acc {
+		if !a.write {
+			if _, isLoad := a.at.(*ssa.UnOp); isLoad {
+				readsIn[a.fn] = append(readsIn[a.fn], a)
+			}
+		}
+	}
+	for _, fn := range p.Funcs {
+		var bad []string
+		n := 0
+		instrsOf(fn, func(in ssa.Instruction) {
+			mu, ok := in.(*ssa.MapUpdate)
+			if !ok {
+				return
+			}
+			u, ok := p.origin(mu.Map).(*ssa.UnOp)
+			if !ok {
+				return
+			}
+			fa, ok := u.X.(*ssa.FieldAddr)
+			if !ok {
+				return
+			}
+			row, ok := byField[fieldKeyAddr(fa)]
+			if !ok {
+				return
+			}
+			var unlocks []ssa.Instruction
+			instrsOf(fn, func(i2 ssa.Instruction) {
+				if c, ok := i2.(*ssa.Call); ok {
+					if op, ok := lockOpOf(&c.Call); ok && op.id == row.lock && (op.kind == "Unlock" || op.kind == "RUnlock") {
+						unlocks = append(unlocks, c)
+					}
+				}
+			})
+			seenR := map[ssa.Instruction]bool{}
+			for _, r := range readsIn[fn] {
+				if seenR[r.at] || r.field == fieldKeyAddr(fa) || byField[r.field].lock != row.lock {
+					continue
+				}
+				seenR[r.at] = true
+				rv := r.at.(ssa.Value)
+				if !p.backwardReaches(mu.Key, func(v ssa.Value) bool { return v == rv }) || !canReach(r.at, mu) {
+					continue
+				}
+				n++
+				for _, ul := range unlocks {
+					if canReach(r.at, ul) && canReach(ul, mu) && !canReachAvoiding(r.at, mu, ul) {
+						bad = append(bad, fmt.Sprintf("the key of the update of %s at %s comes from %s read at %s, but %s is released at %s in between: the entry may have been removed meanwhile and the update re-creates state for it",
+							fieldKeyAddr(fa), p.instrPos(mu), r.field, p.instrPos(r.at), row.lock, p.instrPos(ul)))
+					}
+				}
+			}
+		})
+		if n == 0 {
+			continue
+		}
+		key := funcKey(fn) + ":keyed-update"
+		if len(bad) > 0 {
+			o.bad("C6", key, p.Pos(fn.Pos()), strings.Join(dedupe(bad), "; "))
+		} else {
+			o.ok("C6", key, p.Pos(fn.Pos()), fmt.Sprintf("%d map update(s) keyed from another field of the same guard, each in the critical section that read it", n))
 		}
 	}
 }
